@@ -167,9 +167,12 @@ func (g *docGen) security() (any, bool) {
 		o := jx.Obj{}
 		n := 1 + g.rng.IntN(2)
 		for i := 0; i < n; i++ {
-			sc := jx.Arr{}
-			if Chance(g.rng, 40) {
+			var sc any = jx.Arr{}
+			switch g.rng.IntN(5) {
+			case 0, 1:
 				sc = jx.Arr{"read", "write"}
+			case 2:
+				sc = nil // "scheme": null is loadable too
 			}
 			o[Pick(g.rng, g.sec)] = sc
 		}
